@@ -44,6 +44,7 @@ func (h *Handler) HandleOpenDir(ctx *Context, path string) bool {
 	info, err := handle.Stat()
 	if err != nil {
 		log.WarnContext(ctx, "Stat failed", logutil.ErrorAttr(err))
+		_ = handle.Close()
 		return false
 	}
 
